@@ -1,13 +1,13 @@
 package main
 
 import (
-	"sync/atomic"
 	"fmt"
 	"math"
 	"regexp"
 	"sort"
 	"strconv"
 	"strings"
+	"sync/atomic"
 	"time"
 
 	"github.com/linkedin/Burrow/core/protocol"
@@ -39,12 +39,65 @@ func genStorage(g *gen) {
 	ncases := 250 * g.scale
 	for i := 0; i < ncases; i++ {
 		g.newCase()
-		if g.chance(2, 5) {
+		if i%6 == 4 {
+			genStorageMixed(g)
+		} else if g.chance(2, 5) {
 			genStorageRing(g)
 		} else {
 			genStorageGeneral(g)
 		}
 	}
+}
+
+// one group whose partitions — over several topics — are each driven into a chosen state (C04: the group status is
+// the worst of them whatever order the topics are walked in, Maxlag the largest lag, the totals the sums)
+func genStorageMixed(g *gen) {
+	c, grp := hexName("c0"), hexName("g0")
+	g.emit("S init 2 3600 0 - - %s", c)
+	ntopics := 2 + g.intn(2)
+	order := int64(1)
+	for ti := 0; ti < ntopics; ti++ {
+		t := hexName(stTopics[ti])
+		nparts := 1 + g.intn(2)
+		for part := 0; part < nparts; part++ {
+			commit := func(off, rel int64) {
+				g.emit("S commit %s %s %s %d %d %d %d", c, grp, t, part, off, order, rel)
+				order++
+			}
+			broker := func(off int64) { g.emit("S broker %s %s %d %d %d 1", c, t, part, nparts, off) }
+			base := g.pick(10, 100, 5000)
+			switch g.intn(6) {
+			case 0: // stopped: the last commit is older than the window is long, and behind
+				broker(base + 900)
+				commit(base, -300000)
+				commit(base+10, -290000)
+			case 1: // falling behind: offsets advance, lag grows
+				broker(base + 50)
+				commit(base, -5000)
+				broker(base + 200)
+				commit(base+10, -1000)
+			case 2: // stalled: same offset, behind
+				broker(base + 70)
+				commit(base, -5000)
+				commit(base, -1000)
+			case 3: // rewound
+				broker(base + 40)
+				commit(base+20, -5000)
+				commit(base+5, -1000)
+			case 4: // caught up
+				broker(base + 10)
+				commit(base+5, -5000)
+				commit(base+10, -1000)
+			default: // a single commit: window not full
+				broker(base + 30)
+				commit(base, -2000)
+			}
+		}
+	}
+	for k := 0; k < 3; k++ {
+		g.emit("S status %s %s %08x %d %d", c, grp, math.Float32bits([]float32{0, 0.5, 1.0}[g.intn(3)]), g.pick(0, 0, 1, 5), g.intn(2))
+	}
+	g.emit("S consumer %s %s", c, grp)
 }
 
 // one partition, dense log positions, a fetch after every commit (C02, C01)
